@@ -17,7 +17,7 @@ CLAIMS = {
          "Kani/CBMC; model crates; std io::Error / Box<dyn Error> values forgotten (mem::forget) in harnesses; in the E2 kernel the load_with_ext closure is the environment; shipped loaders out of scope"),
  "C06": ("model_checking", TECH2, "entry-level reload-id/watcher/global-flag bookkeeping for all sequences of <= 5 operations; update-list precision on the dependency graph kernel (thorough); watcher/increment interleavings and reloaded_global pollers against one reload (E2); one reloader pass reloads every affected asset exactly once, in order (E2 run_update kernel); Local/Static mode switch of the reloader: which entry point runs a pass in which mode and on which cache, the pass at enhance_hot_reloading consumes the pending set (E2 mode-switch kernel, run_update inlined)",
          "Kani/CBMC; model crates; single-location atomics are coherent so SC interleavings are exact"),
- "C07": ("model_checking", TECH, "lock discipline of read guards (all guard shapes) and of UntypedEntry::write against a ghost-state lock model: value/id/flag change only inside the write section; writer blocks under a live guard; hot_reload blocks until answered",
+ "C07": ("model_checking", TECH3, "lock discipline of read guards (all guard shapes) and of UntypedEntry::write against a ghost-state lock model: value/id/flag change only inside the write section; writer blocks under a live guard; hot_reload blocks until answered; reloader side: while the reloader is in Local mode no entry point but the handling of a hot_reload request runs an update pass (handle_events / update_if_static idle), and the request is answered only after update_if_local returned, for every script of <= 4 (quick) / 6 (thorough) channel interactions (E2 mode-switch and thread-loop kernels)",
          "parking_lot model: reader/writer exclusion trusted; std-lock build not covered"),
  "C08": ("model_checking", TECH3, "monitor discipline of the answer protocol as one-step obligations from symbolic pre-states (who empties/fills the slot must notify; wrong-token callers and a full slot block untouched; tokens unique; reload sends its token then waits), one pass of the real reloader thread, bounded termination of the reverse-dependency visit on look-up cycles; the message loop of hot_reloading_thread against every script of <= 4 (quick) / 6 (thorough) channel interactions in both reloader modes: every Ptr request is followed by update_if_local and Answers::notify with its own token before the next channel access (E2 thread-loop kernel)",
          "parking_lot::Condvar without spurious wake-ups (documented) and weak fairness assumed; the std-lock build is covered for the answer protocol only (std::sync::Condvar::{wait,notify_all} stubbed, spurious/foreign wake-ups allowed); composition of the one-step obligations into deadlock freedom is a pen-and-paper monitor argument (DESIGN.md §5)"),
@@ -62,7 +62,7 @@ def main():
         },
         "engines": [
             {"name": "E1-kani", "path": "lib/kanirun.py", "serves_properties": sorted(CLAIMS), "kind_free_text": "Kani 0.68/CBMC 6.11 bounded model checking of in-crate proof harnesses (incrate/<property>/*.rs) over the real crate staged from /repo; environment model crates (models/) via [patch]; native concrete-playback replay before any VIOLATION"},
-            {"name": "E2-mir2smt", "path": "engines/mir2smt", "serves_properties": ["C01", "C02", "C03", "C06", "C08", "C09", "C10", "C15", "C16", "C18"], "kind_free_text": "own encoder: nightly MIR dump -> SMT-LIB; interleaving queries over the atomics kernels (C06/C16/C18) and sequential kernels (extension loop of load_from_source, shard selection of the map, reload_untyped, run_update, the reloader's mode switch and its thread's message loop), decided by z3 and cvc5 (must agree)"},
+            {"name": "E2-mir2smt", "path": "engines/mir2smt", "serves_properties": ["C01", "C02", "C03", "C06", "C07", "C08", "C09", "C10", "C15", "C16", "C18"], "kind_free_text": "own encoder: nightly MIR dump -> SMT-LIB; interleaving queries over the atomics kernels (C06/C16/C18) and sequential kernels (extension loop of load_from_source, shard selection of the map, reload_untyped, run_update, the reloader's mode switch and its thread's message loop), decided by z3 and cvc5 (must agree)"},
         ],
         "checks": [],
         "not_applicable": [],
@@ -78,7 +78,7 @@ def main():
                 "thorough_cmd": f"./check {pid} --tier thorough",
                 "evidence_file": f"/verif/evidence/{pid}.json",
                 "replay_cmd_template": "./replay-trace {path}",
-                "engine": "E1-kani+E2-mir2smt" if pid in ("C01", "C02", "C03", "C06", "C08", "C09", "C10", "C15", "C16", "C18") else "E1-kani",
+                "engine": "E1-kani+E2-mir2smt" if pid in ("C01", "C02", "C03", "C06", "C07", "C08", "C09", "C10", "C15", "C16", "C18") else "E1-kani",
                 "level_claimed": {"category": lvl, "text": text, "design_ref": f"DESIGN.md §6 {pid}"},
                 "level_note": note,
                 "technique": tech,
